@@ -60,7 +60,8 @@ Rec(i) ==
            nc   == NCaps(re)
            al   == Alphabet(re, MBFor(i), ILLFor(i))
            L    == LenFor(Cardinality(al), Budget, LCap)
-           H    == SetToSeq(SeqsUpTo(al, L) \cup Splice(prog, al, Budget \div 3))
+           H    == SetToSeq(SeqsUpTo(al, L) \cup Splice(prog, al, Budget \div 3)
+                             \cup Sampled(al, i, Budget \div 8, 6) \cup Sampled(al, i + 3, Budget \div 12, 8))
        IN [fam |-> Family, i |-> i, re |-> rn, nc |-> nc, names |-> Names(rn),
            hs |-> [j \in 1..Len(H) |-> HRec(prog, nc, H[j])]]
 
